@@ -19,6 +19,7 @@ type c03Case struct {
 	B       int    `json:"b,omitempty"`     // for: bound
 	CondOp  int    `json:"cond_op,omitempty"`
 	PostOp  int    `json:"post_op,omitempty"`
+	Vars    int    `json:"vars,omitempty"` // for: 0 literal bounds; bounds held in variables that are read again after the loop: 1 assigned in the template, 2 data ints, 3 data floats (+0.5)
 }
 
 type C03Item struct{ N int }
@@ -156,7 +157,11 @@ func c03Build(cs c03Case) ([]*Node, map[string]Val, map[string]any) {
 	var loop *Node
 	if forLoop {
 		condOps := []string{"<", ">", "!=", "<="}
-		loop = &Node{K: "for", Init: nAssign("i", intExpr(cs.A)), Cond: eBin(condOps[cs.CondOp], eVar("i"), intExpr(cs.B)), Body: body}
+		from, to := intExpr(cs.A), intExpr(cs.B)
+		if cs.Vars > 0 {
+			from, to = eVar("a"), eVar("b")
+		}
+		loop = &Node{K: "for", Init: nAssign("i", from), Cond: eBin(condOps[cs.CondOp], eVar("i"), to), Body: body}
 		switch cs.PostOp {
 		case 0:
 			loop.Post = nPrint(&Expr{Op: "inc", Kids: []*Expr{eVar("i")}})
@@ -225,6 +230,18 @@ func c03Build(cs c03Case) ([]*Node, map[string]Val, map[string]any) {
 	if cs.Outer == 1 {
 		tree = []*Node{nText("P"), {K: "each", Name: "u", E: &Expr{Op: "arr", Kids: []*Expr{eLit(vStr("x")), eLit(vStr("y"))}},
 			Body: []*Node{nText("<"), nPrint(loopProp("index")), loop, nPrint(loopProp("iter")), nPrint(eVar("u")), nText(">")}}, nText("Q")}
+	}
+	if forLoop && cs.Vars > 0 {
+		// the loop is entered twice (outer loop) and the variables holding its bounds are read afterwards
+		switch cs.Vars {
+		case 1:
+			tree = append([]*Node{nAssign("a", intExpr(cs.A)), nAssign("b", intExpr(cs.B))}, tree...)
+		case 2:
+			data["a"], data["b"] = vInt(int64(cs.A)), vInt(int64(cs.B))
+		default:
+			data["a"], data["b"] = vFloat(float64(cs.A)+0.5), vFloat(float64(cs.B)+0.5)
+		}
+		tree = append(tree, nText("["), nPrint(eVar("a")), nText(","), nPrint(eVar("b")), nText("]"))
 	}
 	if native == nil {
 		native = dataMap(data)
@@ -385,6 +402,14 @@ func c03Run(c *Ctx) {
 								if !do(cs) {
 									return false
 								}
+								if k <= 1 && el < 0 {
+									for vars := 1; vars <= 3; vars++ {
+										cs.Vars, cs.Outer = vars, 1
+										if !do(cs) {
+											return false
+										}
+									}
+								}
 							}
 						}
 					}
@@ -430,7 +455,7 @@ func init() {
 	p := &Property{
 		ID:    "C03",
 		Level: "exploration",
-		Rule: "bounded-exhaustive: @each over literal / data int / data string / data struct arrays of every length 0..n (plus heterogeneous and non-array operands) and @for over every init/bound in -1..3, 4 comparison and 3 post forms, with every body sequence of <=3 items from an alphabet of text, loop-variable and loop.* prints, @break, @continue, @breakIf/@continueIf and @if/@elseif/@else blocks holding them, and nested @each loops (with their own loop.*, break/continue and @else), with/without @else (also @break/@continue inside @else), alone and inside an outer loop that prints its own metadata around it. " +
+		Rule: "bounded-exhaustive: @each over literal / data int / data string / data struct arrays of every length 0..n (plus heterogeneous and non-array operands) and @for over every init/bound in -1..3, 4 comparison and 3 post forms, with every body sequence of <=3 items from an alphabet of text, loop-variable and loop.* prints, @break, @continue, @breakIf/@continueIf and @if/@elseif/@else blocks holding them, and nested @each loops (with their own loop.*, break/continue and @else), with/without @else (also @break/@continue inside @else), alone and inside an outer loop that prints its own metadata around it.  [as built: @for bounds also held in variables (assigned in the template, data ints, data floats) that are read again after the loop, the loop being entered twice by an outer loop]" +
 			"Programs whose reference evaluation exceeds 40 passes are skipped and counted. Non-trivial: the program contains a control directive, an @else, or nested loops",
 		Bounds: func(tier string) map[string]any {
 			a, r := c03Alphabet(false)
